@@ -204,6 +204,23 @@ def time_cases(tier, rng):
             out.append((f'1 story {lbl} zone on the story only',
                         B.ro_doc([_zoned(B.story('A', bodies[1], md=md), lambda: '-03:00'), B.story('B', [], md=B.timing_md(duration='4'))],
                                  ed_start='2021-03-04T09:00:00')))
+    # the payload fields in every ORDER (a schema does not fix it): which field wins is a matter of names, not of position
+    def reordered(md, order):
+        md = [md[0], md[1], md[2], md[3], [list(c) for c in md[4]]]
+        for c in md[4]:
+            if c[0] == 'mosPayload':
+                kids = list(c[4])
+                c[4] = [kids[i] for i in order if i < len(kids)] + [k for j, k in enumerate(kids) if j not in order]
+        return md
+    import itertools as _it
+    full = B.timing_md(duration='90', text_time='20', media_time='40', started='2021-03-04T10:00:00', ended='2021-03-04T10:05:00')
+    three = B.timing_md(duration='90', text_time='20', media_time='40')
+    for order in _it.permutations(range(3)):
+        out.append((f'payload order {order} (StoryDuration, TextTime, MediaTime)',
+                    B.ro_doc([B.story('A', bodies[1], md=reordered(three, order)), B.story('B', [], md=B.timing_md(text_time='5'))], ed_start='2021-03-04T09:00:00')))
+    for order in list(_it.permutations(range(5)))[::7]:
+        out.append((f'payload order {order} (all five fields)',
+                    B.ro_doc([B.story('A', bodies[1], md=reordered(full, order)), B.story('B', [], md=reordered(three, order[:3] if max(order[:3]) < 3 else (2, 1, 0)))], ed_start='2021-03-04T09:00:00')))
     # several stories: combinations
     n_multi = 150 if tier == 'quick' else 20000
     for k in range(n_multi):
